@@ -301,7 +301,10 @@ def _run_case(chk, drv, case, stats):
         return
     f0 = rng.uniform(-1, 1, size=(nq, nz)) * rng.choice([1.0, 1e3, 1e-3])
     f = f0.copy()
-    fa.step(f, cIdx, rIdx)
+    # the indices of the surface counted from the end in part of the cases (cIdx - nv, rIdx - nr name the same surface)
+    neg = case['sub'] % 4
+    fa.step(f, cIdx - (B['nv'] if neg in (1, 3) else 0), rIdx - (B['nr'] if neg in (2, 3) else 0))
+    tag['indices_from_the_end'] = {0: 'none', 1: 'v', 2: 'r', 3: 'r and v'}[neg]
     if not np.isfinite(f).all():
         chk.fail('C10:nonfinite', 'step produced nan/inf from finite data', tag, actual=int((~np.isfinite(f)).sum()))
         return
@@ -339,10 +342,16 @@ def _run_case(chk, drv, case, stats):
     if bad is not None:
         chk.diff('FluxSurfaceAdvection.step output', tag, {'q,i,model': bad[:3], 'scale': bad[4]}, bad[3])
     # mechanism agreement (state named by the property; recorded, decides only in the exact family where it is exact)
-    st_sh = [int(s) for s in fa._shifts[rIdx, cIdx]]
+    # (the table is private state of the operator: if its shape is not the one this harness knows, the comparison is skipped and the
+    # outputs alone decide)
+    try:
+        st_sh = [int(s) for s in fa._shifts[rIdx, cIdx]]
+    except (TypeError, IndexError, AttributeError):
+        st_sh = None
+        chk.count('stencil table not in the known shape: mechanism comparison skipped')
     if st_sh == sh:
         stats['shifts_agree'] += 1
-    elif case['fam'] == 'exact':
+    elif case['fam'] == 'exact' and st_sh is not None:
         chk.diff('stencil shifts (exact family)', tag, sh, st_sh)
     qq = F(zDist) / F(dz)
     if case['iota'] == 0.0 and qq.denominator == 1:
